@@ -8,7 +8,7 @@
 
 stdin : {"cases": [case, ...]}
   bridge case = {"kind": "bridge", "in": side, "out": side, "prefix": [action..], "tail": bool, "cap": int}
-  side = {"locked": bool, "held": [frame..], "ev0": [frame..], "spont": [[frame..]..]}
+  side = {"locked": bool, "filt": cls|null, "held": [frame..], "ev0": [frame..], "spont": [[frame..]..]}
   action = 0 application (Bridge.__init__); input side: 2 reader, 3 old connector I/O, 6 wrapper I/O, 5 emit;
            output side: 12, 13, 16, 15
 stdout: RESULT {"results": [...]}
@@ -91,6 +91,9 @@ def run_bridge(case):
         side = case.get(k, {})
         if side.get("locked", k == "in"):
             conns[k].lock()
+        if side.get("filt") is not None:
+            # the message-queue filter an earlier send_command / send_message left on the device
+            devs[k].set_queue_filter(base.keep_for(side["filt"]))
         for fr in side.get("held", []):
             conns[k]._Connector__locked_pdus.put(mk(fr))
         for fr in side.get("ev0", []):
@@ -158,6 +161,7 @@ def run_bridge(case):
             "locked": bool(c._Connector__locked),
             "dead": bool(s.threads["R%d" % SIDE[k]["idx"]].done),
             "on_packets": c.on_packets,
+            "kept": [classify(m) for m in devs[k]._Device__out_messages.items()],
         }
     info = {"crashed": {n: type(t.exc).__name__ for n, t in s.threads.items() if t.exc is not None},
             "pending": {n: t.label for n, t in s.threads.items() if not t.done},
